@@ -53,6 +53,10 @@ fn seg() -> String {
   Key(b's')
 }
 
+fn seg2() -> String {
+  Key(b't')
+}
+
 fn any_op(version: u8) -> (PendingOp, bool, bool) {
   let add: bool = kani::any();
   let is_a: bool = kani::any();
@@ -108,11 +112,26 @@ fn count_in(v: Option<&crate::verif_models::SmallSeq<DocId>>, d: DocId) -> usize
 //@ symbolic: a queue of three operations, each an add or a delete (symbolic) of id "a" or "b" (symbolic); whether "a" and "b" are live before the commit (symbolic; live copies sit in segment "s" at ordinals 1 and 2)
 //@ bounds: 3 queued operations, 2 ids, 1 segment; document payload = a version tag
 //@ oracle: last writer wins - an id is in the set of new documents iff the last queued operation on it is an add, and then with the version of that last add; a live copy is removed from the live map and tombstoned exactly once iff any queued operation touches its id; untouched live copies stay; nothing else is tombstoned
-//@ assumes: std HashMap / BTreeMap replaced by the fixed-capacity finite-map model and the tombstone Vec<DocId> by the inline vector model (/verif/models); document ids / segment names (String), Document, PendingOp and DocAddress replaced by payload mirrors of the same shape (the fold only compares ids for equality and clones / moves the values); slice extraction by anchor lines
+//@ assumes: std HashMap / BTreeMap replaced by the constant-index finite-map model (FoldMap) and the tombstone Vec<DocId> by the inline vector model (SmallSeq) of /verif/models; document ids / segment names (String), Document, PendingOp and DocAddress replaced by payload mirrors of the same shape (the fold only compares ids for equality and clones / moves the values); slice extraction by anchor lines
 //@ outside: everything else in the property - visibility to readers, rollback, several writer handles, stale live-map reload, stored projection, compaction, reopen
 #[kani::proof]
 #[kani::unwind(8)]
 fn c04_commit_fold_last_writer_wins() {
+  fold_case(false);
+}
+
+//@ like: c04_commit_fold_last_writer_wins
+//@ tier: thorough
+//@ symbolic: as c04_commit_fold_last_writer_wins, with the live copy of "b" in a second segment "t" at the SAME ordinal as "a" has in "s"
+//@ bounds: 3 queued operations, 2 ids, 2 segments
+#[kani::proof]
+#[kani::unwind(8)]
+fn c04_commit_fold_two_segments() {
+  fold_case(true);
+}
+
+fn fold_case(two_segments: bool) {
+  let (b_seg, b_ord) = if two_segments { (seg2(), 1) } else { (seg(), 2) };
   let (o0, a0, i0) = any_op(0);
   let (o1, a1, i1) = any_op(1);
   let (o2, a2, i2) = any_op(2);
@@ -125,7 +144,7 @@ fn c04_commit_fold_last_writer_wins() {
     live.insert(id(true), DocAddress { segment_id: seg(), doc_id: 1 });
   }
   if live_b {
-    live.insert(id(false), DocAddress { segment_id: seg(), doc_id: 2 });
+    live.insert(id(false), DocAddress { segment_id: b_seg, doc_id: b_ord });
   }
   let (pending_new, tombstones) = slice_commit_fold(&ops, &mut live);
   let (ka, kb, ks) = (id(true), id(false), seg());
@@ -143,13 +162,12 @@ fn c04_commit_fold_last_writer_wins() {
   assert!(live.contains_key(&ka) == (live_a && !touched_a), "C04: a replaced or deleted live copy stays live (or an untouched one is dropped)");
   assert!(live.contains_key(&kb) == (live_b && !touched_b), "C04: a replaced or deleted live copy stays live (or an untouched one is dropped)");
   let t = tombstones.get(&ks);
-  let (c1, c2) = (count_in(t, 1), count_in(t, 2));
-  assert!(c1 <= 1, "DBG a twice");
-  assert!(c2 <= 1, "DBG b twice");
-  assert!(!(live_a && touched_a) || c1 >= 1, "DBG a missing");
-  assert!(!(live_b && touched_b) || c2 >= 1, "DBG b missing");
-  assert!((live_a && touched_a) || c1 == 0, "DBG a spurious");
-  assert!((live_b && touched_b) || c2 == 0, "DBG b spurious");
+  let tb = tombstones.get(&b_seg);
+  let (c1, c2) = (count_in(t, 1), count_in(tb, b_ord));
+  if two_segments {
+    assert!(count_in(t, 2) == 0 && count_in(tb, 2) == 0, "C04: an ordinal that belongs to no live copy is tombstoned");
+    assert!(t.map(|l| l.len()).unwrap_or(0) == c1 && tb.map(|l| l.len()).unwrap_or(0) == c2, "C04: a tombstone is recorded under the wrong segment");
+  }
   assert!(c1 == (live_a && touched_a) as usize, "C04: a replaced or deleted live copy is not tombstoned exactly once (first id)");
   assert!(c2 == (live_b && touched_b) as usize, "C04: a replaced or deleted live copy is not tombstoned exactly once (second id)");
   kani::cover!(live_a && touched_a && !last_add_a, "a live document is deleted");
@@ -159,100 +177,4 @@ fn c04_commit_fold_last_writer_wins() {
   std::mem::forget(tombstones);
   std::mem::forget(live);
   std::mem::forget(ops);
-}
-
-
-fn dbg_run(adds: [bool; 3], ids: [bool; 3], live_a: bool, live_b: bool) {
-  let mk = |add: bool, is_a: bool, v: u8| {
-    if add {
-      PendingOp::Add { doc_id: id(is_a), doc: Document { version: v } }
-    } else {
-      PendingOp::Delete { doc_id: id(is_a) }
-    }
-  };
-  let ops = [mk(adds[0], ids[0], 0), mk(adds[1], ids[1], 1), mk(adds[2], ids[2], 2)];
-  let mut live: ModelMap<String, DocAddress> = ModelMap::new();
-  if live_a {
-    live.insert(id(true), DocAddress { segment_id: seg(), doc_id: 1 });
-  }
-  if live_b {
-    live.insert(id(false), DocAddress { segment_id: seg(), doc_id: 2 });
-  }
-  let had_a = live.contains_key(&id(true));
-  assert!(had_a == live_a, "dbg: live map lost a before the fold");
-  if live_a {
-    assert!(live.get(&id(true)).map(|a| a.doc_id) == Some(1), "dbg: stored address of a wrong before fold");
-  }
-  let (pending_new, tombstones) = slice_commit_fold(&ops, &mut live);
-  let ks = seg();
-  let t = tombstones.get(&ks);
-  let touched_a = ids[0] || ids[1] || ids[2];
-  if live_a && touched_a {
-    assert!(!live.contains_key(&id(true)), "dbg: a still live");
-    assert!(tombstones.len() == 1, "dbg: tombstones map empty");
-    assert!(t.is_some(), "dbg: no list for s");
-    let l = t.unwrap();
-    assert!(l.len() >= 1, "dbg: list empty");
-    assert!(l.len() <= 1, "dbg: list too long");
-    assert!(l.get(0) != Some(2), "dbg: list[0] is b's ordinal");
-    assert!(l.get(0) != Some(0), "dbg: list[0] is 0");
-    assert!(l.get(0) == Some(1), "dbg: list[0] is not 1");
-    assert!(count_in(t, 1) == 1, "dbg: a not in list");
-  }
-  std::mem::forget(pending_new);
-}
-
-//@ props: C04DBG
-//@ tier: quick
-//@ funcs: debug
-#[kani::proof]
-#[kani::unwind(8)]
-fn c04_dbg_live_symbolic() {
-  dbg_run([true, true, true], [true, true, true], kani::any(), kani::any());
-}
-
-//@ props: C04DBG
-//@ tier: quick
-//@ funcs: debug
-#[kani::proof]
-#[kani::unwind(8)]
-fn c04_dbg_adds_symbolic() {
-  dbg_run([kani::any(), kani::any(), kani::any()], [true, true, true], true, true);
-}
-
-//@ props: C04DBG
-//@ tier: quick
-//@ funcs: debug
-#[kani::proof]
-#[kani::unwind(8)]
-fn c04_dbg_ids_symbolic() {
-  dbg_run([true, true, true], [kani::any(), kani::any(), kani::any()], true, true);
-}
-
-//@ props: C04DBG
-//@ tier: quick
-//@ funcs: debug
-#[kani::proof]
-#[kani::unwind(8)]
-fn c04_dbg_model_only() {
-  let live_a: bool = kani::any();
-  let live_b: bool = kani::any();
-  let mut live: ModelMap<String, DocAddress> = ModelMap::new();
-  if live_a {
-    live.insert(id(true), DocAddress { segment_id: seg(), doc_id: 1 });
-  }
-  if live_b {
-    live.insert(id(false), DocAddress { segment_id: seg(), doc_id: 2 });
-  }
-  let r = live.remove(&id(true));
-  if live_a {
-    assert!(r.is_some(), "dbgm: remove lost a");
-    let addr = r.unwrap();
-    assert!(addr.doc_id == 1, "dbgm: removed address has the wrong ordinal");
-    let mut tomb: ModelMap<String, crate::verif_models::SmallSeq<DocId>> = ModelMap::new();
-    tomb.entry(addr.segment_id).or_default().push(addr.doc_id);
-    let l = tomb.get(&seg()).unwrap();
-    assert!(l.len() == 1, "dbgm: list len");
-    assert!(l.get(0) == Some(1), "dbgm: list[0] is not 1");
-  }
 }
